@@ -79,3 +79,110 @@ pub fn run_apiorder(out: &mut dyn Write) {
         writeln!(out, "apiorder\t{}\t{}", case, line).unwrap();
     }
 }
+
+/// C18/C16/C19 on the real unix-datagram transport: every constructor gives a socket on which an idle
+/// runtime notices a stop request within about one receive timeout; the address reported for a
+/// sender is the address it is bound to, verbatim; a long run of sends to one destination does not
+/// change where later sends go.
+pub fn run_unixapi(out: &mut dyn Write) {
+    use portus::ipc::unix::Socket;
+    use portus::ipc::{Blocking, Nonblocking};
+    let tag = format!("pvapi{}", std::process::id());
+    // ---- stop latency on an idle socket, per constructor
+    for ctor in ["blocking new", "blocking new_with_skbuf", "blocking new_with_skbuf sized", "nonblocking new", "nonblocking new_with_skbuf"] {
+        let name = format!("{}-{}", tag, ctor.replace(' ', "_"));
+        let (tx, rx) = mpsc::channel();
+        let h = Arc::new(AtomicBool::new(true));
+        let h2 = h.clone();
+        let name2 = name.clone();
+        let ctor2 = ctor.to_string();
+        std::thread::spawn(move || {
+            macro_rules! go { ($sk:expr) => { match $sk { Ok(sk) => { let rb = RunBuilder::new(BackendBuilder { sock: sk }).default_alg(NopAlg).with_stop_handle(h2); let _ = tx.send(rb.run().map_err(|e| e.0)); } Err(e) => { let _ = tx.send(Err(format!("cannot-bind {}", e.0))); } } } }
+            match ctor2.as_str() {
+                "blocking new" => go!(Socket::<Blocking>::new(&name2)),
+                "blocking new_with_skbuf" => go!(Socket::<Blocking>::new_with_skbuf(&name2, None, None)),
+                "blocking new_with_skbuf sized" => go!(Socket::<Blocking>::new_with_skbuf(&name2, Some(262144), Some(262144))),
+                "nonblocking new" => go!(Socket::<Nonblocking>::new(&name2)),
+                _ => go!(Socket::<Nonblocking>::new_with_skbuf(&name2, Some(262144), None)),
+            }
+        });
+        std::thread::sleep(Duration::from_millis(150));
+        h.store(false, Ordering::SeqCst);
+        let res = match rx.recv_timeout(Duration::from_millis(3500)) {
+            Ok(Ok(())) => "returned-ok".to_string(),
+            Ok(Err(e)) => format!("returned-error {}", e.replace(' ', "-")),
+            Err(_) => "did-not-return-within-3.5s".to_string(),
+        };
+        writeln!(out, "unixapi\tstop {}\t{}", ctor, res).unwrap();
+        let _ = std::fs::remove_file(format!("/tmp/ccp/{}", name));
+    }
+    // ---- the sender address is reported verbatim (absolute, and relative to the working directory)
+    {
+        let rname = format!("{}-addr", tag);
+        let res = match Socket::<Blocking>::new(&rname) {
+            Err(e) => format!("cannot-bind {}", e.0),
+            Ok(recv) => {
+                let dir = std::env::temp_dir().join(format!("{}-cwd", tag));
+                let _ = std::fs::create_dir_all(&dir);
+                let old = std::env::current_dir().ok();
+                let mut verdict = "verbatim".to_string();
+                if std::env::set_current_dir(&dir).is_ok() {
+                    let rel = format!("{}-addr", tag);   // same file name as the receiver's, but in another directory
+                    let _ = std::fs::remove_file(&rel);
+                    if let Ok(s) = std::os::unix::net::UnixDatagram::bind(&rel) {
+                        let _ = s.send_to(b"0123456789abcdef", format!("/tmp/ccp/{}", rname));
+                        let mut buf = [0u8; 64];
+                        match recv.recv(&mut buf) { Ok((16, a)) => { if a != std::path::PathBuf::from(&rel) { verdict = format!("relative sender {} reported as {}", rel, a.display()); } } r => { verdict = format!("unexpected {:?}", r.map(|x| x.0).ok()); } }
+                        let _ = std::fs::remove_file(&rel);
+                    }
+                    let abs = dir.join("abs-sender");
+                    let _ = std::fs::remove_file(&abs);
+                    if let Ok(s) = std::os::unix::net::UnixDatagram::bind(&abs) {
+                        let _ = s.send_to(b"0123456789abcdef", format!("/tmp/ccp/{}", rname));
+                        let mut buf = [0u8; 64];
+                        match recv.recv(&mut buf) { Ok((16, a)) => { if a != abs && verdict == "verbatim" { verdict = format!("absolute sender reported as {}", a.display()); } } r => { if verdict == "verbatim" { verdict = format!("unexpected {:?}", r.map(|x| x.0).ok()); } } }
+                        let _ = std::fs::remove_file(&abs);
+                    }
+                    if let Some(o) = old { let _ = std::env::set_current_dir(o); }
+                }
+                let _ = std::fs::remove_dir_all(&dir);
+                verdict
+            }
+        };
+        writeln!(out, "unixapi\tsender-address\t{}", res).unwrap();
+        let _ = std::fs::remove_file(format!("/tmp/ccp/{}", rname));
+    }
+    // ---- a long run of sends to one destination, then other destinations, then a third party sends to the sender
+    {
+        let names: Vec<String> = ["a", "b", "c", "d"].iter().map(|x| format!("{}-run-{}", tag, x)).collect();
+        let socks: Vec<_> = names.iter().map(|n| Socket::<Nonblocking>::new(n)).collect();
+        let res = if socks.iter().any(|s| s.is_err()) { "cannot-bind".to_string() } else {
+            let socks: Vec<Socket<Nonblocking>> = socks.into_iter().map(|s| s.unwrap()).collect();
+            let path = |i: usize| std::path::PathBuf::from(format!("/tmp/ccp/{}", names[i]));
+            let mut verdict = "each-datagram-reached-its-addressee".to_string();
+            let mut buf = [0u8; 64];
+            let mut seq = 0u32;
+            // 600 back-to-back sends a -> b, drained as we go
+            for _ in 0..600 { seq += 1; if socks[0].send(&seq.to_le_bytes(), &path(1)).is_err() { verdict = "send a->b failed".into(); break; }
+                match socks[1].recv(&mut buf) { Ok((4, _)) if buf[..4] == seq.to_le_bytes() => {} _ => { verdict = format!("datagram {} a->b not delivered", seq); break; } } }
+            // then a -> c, a -> d, a -> b again
+            for (k, dst) in [2usize, 3, 1, 2].iter().enumerate() {
+                seq += 1;
+                if verdict != "each-datagram-reached-its-addressee" { break; }
+                if socks[0].send(&seq.to_le_bytes(), &path(*dst)).is_err() { verdict = format!("send {} to {} failed", k, names[*dst]); break; }
+                for (i, s) in socks.iter().enumerate().skip(1) {
+                    let got = matches!(s.recv(&mut buf), Ok((4, _)) if buf[..4] == seq.to_le_bytes());
+                    if got != (i == *dst) { verdict = format!("datagram addressed to {} was {} by {}", names[*dst], if got { "received" } else { "not received" }, names[i]); }
+                }
+            }
+            // a third party can still reach the sender
+            if verdict == "each-datagram-reached-its-addressee" {
+                if socks[3].send(b"ping", &path(0)).is_err() { verdict = "third party cannot send to the sender any more".into(); }
+                else if !matches!(socks[0].recv(&mut buf), Ok((4, _))) { verdict = "third party's datagram to the sender was lost".into(); }
+            }
+            verdict
+        };
+        writeln!(out, "unixapi\tlong-run-then-other-destinations\t{}", res).unwrap();
+        for n in &names { let _ = std::fs::remove_file(format!("/tmp/ccp/{}", n)); }
+    }
+}
